@@ -1307,6 +1307,9 @@ def _const_method(const, name, *args, **kw):
     """Method call on a bytes/str *constant* receiver whose C implementation rejects proxies."""
     if name == 'join':
         parts = list(args[0])
+        for p in parts:
+            if hasattr(type(p), '__bvx_join__'):
+                return type(p).__bvx_join__(const, parts)
         if isinstance(const, builtins.bytes) and any(isinstance(p, SymBytes) for p in parts):
             out: list = []
             for k, p in enumerate(parts):
